@@ -9,7 +9,8 @@
 
 use crate::rsparse::{parse_items, Item, Val};
 use crate::world::FsImage;
-use std::collections::{BTreeMap, BTreeSet};
+use std::collections::{BTreeMap, BTreeSet, HashMap};
+use std::sync::OnceLock;
 use unic_langid_impl::likelysubtags as ls;
 use unic_langid_impl::subtags;
 use unic_langid_impl::verif_tables as lt;
@@ -222,8 +223,114 @@ pub fn split_langid(s: &str) -> Result<Lid, String> {
     Ok(lid)
 }
 
+// ---- integer form of subtags ----------------------------------------------------------------
+// The reference model packs subtags itself (little-endian ASCII, zero padded: how TinyStr lays a
+// string out). Should the library ever change its integer representation *consistently*
+// (conversions, unchecked constructors, generators and regenerated tables all together), the
+// property would still hold while an own-packer comparison would cry wolf. So at start-up the
+// own packer is compared with the library's conversions on every subtag occurring in the CLDR
+// data; only if they disagree does the reference fall back to the library's conversions (recorded
+// in evidence as `reference_packer`). A one-sided change (conversion changed, tables not
+// regenerated) is still caught then: by S1 under the library packing and by R2.
+
+#[derive(Clone, Copy, PartialEq, Eq, Debug)]
+pub enum Kind {
+    Lang,
+    Script,
+    Region,
+}
+
+pub struct Packer {
+    pub fallback: bool,
+    rev: [HashMap<u128, String>; 3],
+}
+
+static PACKER: OnceLock<Packer> = OnceLock::new();
+
+fn lib_pack(kind: Kind, s: &str) -> Option<u128> {
+    match kind {
+        Kind::Lang => {
+            let l = subtags::Language::from_bytes(s.as_bytes()).ok()?;
+            let v: Option<u64> = l.into();
+            v.map(|x| x as u128)
+        }
+        Kind::Script => subtags::Script::from_bytes(s.as_bytes()).ok().map(|x| u32::from(x) as u128),
+        Kind::Region => subtags::Region::from_bytes(s.as_bytes()).ok().map(|x| u32::from(x) as u128),
+    }
+}
+
+/// Decide which packer the reference uses; call once before `reference()`.
+pub fn init_packer(img: &FsImage) -> &'static Packer {
+    PACKER.get_or_init(|| {
+        let mut subs: BTreeSet<(u8, String)> = BTreeSet::new();
+        let mut add = |l: &Lid| {
+            if let Some(x) = &l.lang {
+                subs.insert((0, x.clone()));
+            }
+            if let Some(x) = &l.script {
+                subs.insert((1, x.clone()));
+            }
+            if let Some(x) = &l.region {
+                subs.insert((2, x.clone()));
+            }
+        };
+        if let Some(raw) = img.files.get("data/likelySubtags.json") {
+            if let Ok(v) = serde_json::from_slice::<serde_json::Value>(raw) {
+                if let Some(o) = v["supplemental"]["likelySubtags"].as_object() {
+                    for (k, val) in o {
+                        if let Ok(l) = split_langid(k) {
+                            add(&l);
+                        }
+                        if let Some(Ok(l)) = val.as_str().map(split_langid) {
+                            add(&l);
+                        }
+                    }
+                }
+            }
+        }
+        if let Some(d) = img.dirs.get("data/cldr-misc-full/main") {
+            for (name, _) in d {
+                if let Ok(l) = split_langid(name) {
+                    add(&l);
+                }
+            }
+        }
+        let kinds = [Kind::Lang, Kind::Script, Kind::Region];
+        let mut fallback = false;
+        for (k, s) in &subs {
+            if let Some(v) = lib_pack(kinds[*k as usize], s) {
+                if v != own_pack(s) {
+                    fallback = true;
+                }
+            }
+        }
+        let mut rev = [HashMap::new(), HashMap::new(), HashMap::new()];
+        if fallback {
+            // the bare `und` key of LANG_ONLY is spelled out by the generator as LE bytes of "und"
+            rev[0].insert(own_pack("und"), "und".to_string());
+            for (k, s) in &subs {
+                if let Some(v) = lib_pack(kinds[*k as usize], s) {
+                    rev[*k as usize].insert(v, s.clone());
+                }
+            }
+        }
+        Packer { fallback, rev }
+    })
+}
+
+fn packer_fallback() -> Option<&'static Packer> {
+    PACKER.get().filter(|p| p.fallback)
+}
+
+pub fn pack_kind(kind: Kind, s: &str) -> u128 {
+    match packer_fallback() {
+        Some(_) => lib_pack(kind, s).unwrap_or_else(|| own_pack(s)),
+        None => own_pack(s),
+    }
+}
+
 /// little-endian packing of an ASCII subtag, zero padded (how TinyStr lays a string out)
-pub fn pack(s: &str) -> u128 {
+pub fn own_pack(s: &str) -> u128 {
     let mut v: u128 = 0;
     for (i, b) in s.bytes().enumerate() {
         v |= (b as u128) << (8 * i);
@@ -250,6 +357,12 @@ fn unpack(v: u128, width: usize) -> Result<String, String> {
 }
 
 pub fn decode_lang(v: u128) -> Result<String, String> {
+    if let Some(p) = packer_fallback() {
+        return p.rev[Kind::Lang as usize]
+            .get(&v)
+            .cloned()
+            .ok_or_else(|| format!("{} is not the library's integer form of any CLDR subtag of that type", v));
+    }
     let s = unpack(v, 8)?;
     let n = s.len();
     if ((2..=3).contains(&n) || (5..=8).contains(&n)) && all(&s, |b| b.is_ascii_lowercase()) {
@@ -259,6 +372,12 @@ pub fn decode_lang(v: u128) -> Result<String, String> {
     }
 }
 pub fn decode_script(v: u128) -> Result<String, String> {
+    if let Some(p) = packer_fallback() {
+        return p.rev[Kind::Script as usize]
+            .get(&v)
+            .cloned()
+            .ok_or_else(|| format!("{} is not the library's integer form of any CLDR subtag of that type", v));
+    }
     let s = unpack(v, 4)?;
     let b = s.as_bytes();
     if b.len() == 4 && b[0].is_ascii_uppercase() && b[1..].iter().all(|c| c.is_ascii_lowercase()) {
@@ -268,6 +387,12 @@ pub fn decode_script(v: u128) -> Result<String, String> {
     }
 }
 pub fn decode_region(v: u128) -> Result<String, String> {
+    if let Some(p) = packer_fallback() {
+        return p.rev[Kind::Region as usize]
+            .get(&v)
+            .cloned()
+            .ok_or_else(|| format!("{} is not the library's integer form of any CLDR subtag of that type", v));
+    }
     let s = unpack(v, 4)?;
     let n = s.len();
     if (n == 2 && all(&s, |b| b.is_ascii_uppercase())) || (n == 3 && all(&s, |b| b.is_ascii_digit())) {
@@ -277,9 +402,9 @@ pub fn decode_region(v: u128) -> Result<String, String> {
     }
 }
 
-fn some_int(o: &Option<String>) -> Val {
+fn some_int(kind: Kind, o: &Option<String>) -> Val {
     match o {
-        Some(s) => Val::Some(Box::new(Val::Int(pack(s)))),
+        Some(s) => Val::Some(Box::new(Val::Int(pack_kind(kind, s)))),
         None => Val::None,
     }
 }
@@ -328,18 +453,19 @@ pub fn reference(img: &FsImage) -> Result<Reference, String> {
             value.region = None;
         }
         let v3 = Val::Tuple(vec![
-            some_int(&value.lang),
-            some_int(&value.script),
-            some_int(&value.region),
+            some_int(Kind::Lang, &value.lang),
+            some_int(Kind::Script, &value.script),
+            some_int(Kind::Region, &value.region),
         ]);
         let (table, ints): (&str, Vec<u128>) = match (&key.lang, &key.script, &key.region) {
-            (None, None, None) => ("LANG_ONLY", vec![pack("und")]),
-            (Some(l), None, None) => ("LANG_ONLY", vec![pack(l)]),
-            (Some(l), None, Some(r)) => ("LANG_REGION", vec![pack(l), pack(r)]),
-            (Some(l), Some(s), None) => ("LANG_SCRIPT", vec![pack(l), pack(s)]),
-            (None, Some(s), Some(r)) => ("SCRIPT_REGION", vec![pack(s), pack(r)]),
-            (None, Some(s), None) => ("SCRIPT_ONLY", vec![pack(s)]),
-            (None, None, Some(r)) => ("REGION_ONLY", vec![pack(r)]),
+            // the bare `und` key: the generator spells this integer out as the little-endian bytes of "und"
+            (None, None, None) => ("LANG_ONLY", vec![own_pack("und")]),
+            (Some(l), None, None) => ("LANG_ONLY", vec![pack_kind(Kind::Lang, l)]),
+            (Some(l), None, Some(r)) => ("LANG_REGION", vec![pack_kind(Kind::Lang, l), pack_kind(Kind::Region, r)]),
+            (Some(l), Some(s), None) => ("LANG_SCRIPT", vec![pack_kind(Kind::Lang, l), pack_kind(Kind::Script, s)]),
+            (None, Some(s), Some(r)) => ("SCRIPT_REGION", vec![pack_kind(Kind::Script, s), pack_kind(Kind::Region, r)]),
+            (None, Some(s), None) => ("SCRIPT_ONLY", vec![pack_kind(Kind::Script, s)]),
+            (None, None, Some(r)) => ("REGION_ONLY", vec![pack_kind(Kind::Region, r)]),
             (Some(_), Some(_), Some(_)) => {
                 unplaceable.push(k.clone());
                 continue;
@@ -405,12 +531,12 @@ pub fn reference(img: &FsImage) -> Result<Reference, String> {
             o => return Err(format!("{}: unknown characterOrder {:?}", path, o)),
         };
         if let Some(s) = &lid.script {
-            sets.get_mut(set_name).unwrap().insert(pack(s));
+            sets.get_mut(set_name).unwrap().insert(pack_kind(Kind::Script, s));
         }
         if dir == "right-to-left" {
             match &lid.lang {
                 Some(l) => {
-                    sets.get_mut("LANGS_CHARACTER_DIRECTION_RTL").unwrap().insert(pack(l));
+                    sets.get_mut("LANGS_CHARACTER_DIRECTION_RTL").unwrap().insert(pack_kind(Kind::Lang, l));
                 }
                 None => return Err(format!("{}: right-to-left locale with undetermined language", path)),
             }
@@ -755,7 +881,7 @@ pub fn static_checks(comp: &BTreeMap<String, Val>, rf: &Reference) -> StaticRepo
                 let und = subtags::Language::default();
                 Some(match t {
                     "LANG_ONLY" => {
-                        if k.first() == Some(&pack("und")) {
+                        if k.first() == Some(&own_pack("und")) {
                             return None; // by design not reachable: the bare und key
                         }
                         (lang(*k.first()?)?, None, None)
